@@ -1020,13 +1020,16 @@ def native_session_search(v):
             steps.append({"op": "key", "key": PLANT_KEYS[k], "mod": 0, "sel": 0})
         for e_ in ending:
             steps.append({"op": "backspace", "ctrl": e_ == "ctrl_backspace"} if "backspace" in e_ else ({"op": "commit", "index": 0} if e_ == "commit" else {"op": "finish"}))
-        # drive to the end with the counterexample's event, repeated for backspace
+        # drive to the end with the counterexample's event, repeated for backspace (also: the whole word deleted first, then plain backspaces)
         reps = 4 if ev["op"] == "backspace" else 1
         steps.append({"op": "get_state"})
-        for _ in range(reps):
-            steps.append(dict(ev))
-            steps.append({"op": "get_state"})
-        scs.append({"steps": steps})
+        tail_a, tail_b = [], []
+        for r_ in range(reps):
+            tail_a += [dict(ev), {"op": "get_state"}]
+            tail_b += [dict(ev, ctrl=(r_ == 0)), {"op": "get_state"}]
+        scs.append({"steps": steps + tail_a})
+        if ev["op"] == "backspace" and combo:
+            scs.append({"steps": steps + tail_b})
     res = run_replay_parallel(scs, timeout=1200)
     for sc, r in zip(scs, res):
         rr = r["results"]
@@ -1059,6 +1062,9 @@ def native_session_search(v):
                 bad = True
             if clause == "nonempty_return_means_ongoing" and empty is False and not x.get("ongoing"):
                 bad = True
+            if (clause in ("idle_backspace_returns_empty", "idle_backspace_starts_nothing") and ev["op"] == "backspace" and before
+                    and before.get("buffer") == "" and before.get("pending") is None and (empty is False or not fresh or x.get("ongoing"))):
+                bad = True      # nothing was being composed, and a backspace brought something back
             if clause == "stale_scratch_candidates_not_observable" and fresh and empty is False:
                 bad = True      # nothing is being composed, yet something is shown: it can only come from a word given up earlier
             if (clause == "key_without_value_changes_nothing" and ev["op"] == "key" and before
